@@ -160,7 +160,16 @@ def contents_predicates(ctx, rule):
     (not merely that a slot exists)."""
     h = ctx.body(B + "has_source_contents")
     calls = [q.shape(h.expr_of_call(t)) for bi, t in h.calls()]
-    ctx.check(calls == ["SourceMapBuilder::get_source_contents(arg1,arg2)", "Option::is_some(SourceMapBuilder::get_source_contents(arg1,arg2))"], rule, h.path, "has=is_some(get)",
+    ok_has = calls == ["SourceMapBuilder::get_source_contents(arg1,arg2)", "Option::is_some(SourceMapBuilder::get_source_contents(arg1,arg2))"]
+    if not ok_has and calls == ["arg1.source_contents", "slice::get(arg1.source_contents,cast<usize>(arg2))"]:
+        # the same presence test on the slot itself: true exactly for Some(Some(_)) (decided over the four cases)
+        SLOT = "slice::get(arg1.source_contents,cast<usize>(arg2))"
+        res = {}
+        for outer in (0, 1):
+            for inner in (0, 1):
+                res[(outer, inner)] = absint.eval_pred(h, {"discr(%s)" % SLOT: outer, "discr(try(%s))" % SLOT: inner})
+        ok_has = res == {(0, 0): 0, (0, 1): 0, (1, 0): 0, (1, 1): 1}
+    ctx.check(ok_has, rule, h.path, "has=is_some(get)",
               "has_source_contents(id) is exactly get_source_contents(id).is_some()", detail=str(calls))
     g = ctx.body(B + "get_source_contents")
     calls = [q.shape(g.expr_of_call(t)) for bi, t in g.calls()]
@@ -360,6 +369,23 @@ def prefix_source(ctx, rule):
     # result blocks: Into::into(arg2) (unchanged) vs format!
     keep = [bi for bi, t in b.calls() if q.shape(b.expr_of_call(t)) == "arg2" and t["dest"]["l"] == 0 or (q.nice(t.get("callee")) in ("Into::into", "From::from") and len(t["args"]) == 1 and q.shape(q.arg_expr(b, t, 0)) == "arg2")]
     join = [bi for bi, t in b.calls() if q.nice(t.get("callee")) in ("fmt::format",)]
+    pushed = None
+    if not join:
+        # the join spelled as appends to one fresh String: push_str(root'), push('/'), push_str(name)
+        ROOT = ("Option::unwrap_or(str::strip_suffix(arg1,47),arg1)", "Option::unwrap_or(str::strip_suffix(arg1,'/'),arg1)")
+        for l in sorted(b.var_names):
+            if b.local_ty(l) != "alloc::string::String" or not b.locals[l]["mut"]:
+                continue
+            ds = [sh for sh, _, _ in q.def_shapes(b, l, {})]
+            if len(ds) != 1 or not (ds[0] == "String::new()" or ds[0].startswith("String::with_capacity(")):
+                continue
+            apps = [(bi, q.nice(t.get("callee")), q.shape(q.arg_expr(b, t, 1))) for bi, t in b.calls()
+                    if q.nice(t.get("callee")) in ("String::push_str", "String::push") and q.root_local(q.arg_expr(b, t, 0)) == l]
+            apps.sort(key=lambda a: len(b.dominators_of(a[0])))
+            if [a[1] for a in apps] == ["String::push_str", "String::push", "String::push_str"] and apps[0][2] in ROOT and apps[1][2] == "47" and apps[2][2] == "arg2" \
+                    and b.dominates(apps[0][0], apps[1][0]) and b.dominates(apps[1][0], apps[2][0]):
+                join = [apps[2][0]]
+                pushed = apps
     if not ctx.check(len(keep) == 1 and len(join) == 1, rule, fn, "results", "the function returns the name unchanged or the joined name"):
         return
     bad = []
@@ -381,7 +407,7 @@ def prefix_source(ctx, rule):
     ctx.check("Option::unwrap_or(str::strip_suffix(arg1,47),arg1)" in calls or "Option::unwrap_or(str::strip_suffix(arg1,'/'),arg1)" in calls, rule, fn, "root:one-slash",
               "exactly one trailing '/' is removed from the root before joining", detail=str([c for c in calls if "strip" in c]))
     fmt = [c for c in calls if c.startswith("Arguments::new(")]
-    ctx.check(len(fmt) == 1 and "\\x01/" in fmt[0] or (len(fmt) == 1 and "/" in fmt[0]), rule, fn, "join:slash", "root and name are joined with one '/'", detail=str(fmt)[:200])
+    ctx.check(pushed is not None or len(fmt) == 1 and "\\x01/" in fmt[0] or (len(fmt) == 1 and "/" in fmt[0]), rule, fn, "join:slash", "root and name are joined with one '/'", detail=str(fmt)[:200])
 
 
 def into_sourcemap(ctx, rule):
@@ -621,7 +647,8 @@ def flatten_translation(ctx, rule):
     def bool_facts(bb):
         return sorted(set((f.op, str(f.l)) for f in q.facts_at(b, bb, r) if f.op in ("true", "false")))
     for bi, s_ in ig:
-        extra = [f for f in bool_facts(bi) if f != ("true", "BTreeSet::contains(map.ignore_list,token.raw.src_id)")]
+        # (a "the list is not empty" pre-test is implied by membership and changes nothing)
+        extra = [f for f in bool_facts(bi) if f not in (("true", "BTreeSet::contains(map.ignore_list,token.raw.src_id)"), ("false", "BTreeSet::is_empty(map.ignore_list)"))]
         ctx.check(not extra, rule, fn, "ignore:independent", "ignore-list membership is carried over for every token of an ignored source, independently of the contents handling", ctx.site(b, bi), detail=str(extra))
     for bi, s_ in sets:
         extra = [f for f in bool_facts(bi) if f not in (("true", "Option::is_some(Token::get_source(token))"), ("false", "SourceMapBuilder::has_source_contents(builder,raw.src_id)"))]
